@@ -82,16 +82,20 @@ func outboundMappedKey(stg schema.StructRepresentation_Map, key string) string {
 	return mappedKey
 }
 
-func inboundMappedKey(typ *schema.TypeStruct, stg schema.StructRepresentation_Map, key string) string {
+// inboundMappedKey finds the field whose representation key is the given key.
+// GetFieldKey answers the field's own name for a field that is not renamed,
+// so a key that matches no field here is not a key of the representation:
+// in particular, the original name of a renamed field is not.
+func inboundMappedKey(typ *schema.TypeStruct, stg schema.StructRepresentation_Map, key string) (string, bool) {
 	// TODO: can't do a "reverse" lookup... needs better API probably.
 	fields := typ.Fields()
 	for _, field := range fields {
 		mappedKey := stg.GetFieldKey(field)
 		if key == mappedKey {
-			return field.Name()
+			return field.Name(), true
 		}
 	}
-	return key // fallback to the same key
+	return "", false
 }
 
 func outboundMappedType(stg schema.UnionRepresentation_Keyed, key string) string {
@@ -137,7 +141,13 @@ func (w *_nodeRepr) LookupByString(key string) (datamodel.Node, error) {
 	}
 	switch stg := reprStrategy(w.schemaType).(type) {
 	case schema.StructRepresentation_Map:
-		revKey := inboundMappedKey(w.schemaType.(*schema.TypeStruct), stg, key)
+		revKey, ok := inboundMappedKey(w.schemaType.(*schema.TypeStruct), stg, key)
+		if !ok {
+			return nil, schema.ErrInvalidKey{
+				TypeName: w.schemaType.Name(),
+				Key:      basicnode.NewString(key),
+			}
+		}
 		v, err := (*_node)(w).LookupByString(revKey)
 		if err != nil {
 			return nil, err
@@ -962,7 +972,10 @@ func (w *_structAssemblerRepr) AssembleValue() datamodel.NodeAssembler {
 	switch stg := reprStrategy(w.schemaType).(type) {
 	case schema.StructRepresentation_Map:
 		key := w.curKey.val.String()
-		revKey := inboundMappedKey(w.schemaType, stg, key)
+		revKey, ok := inboundMappedKey(w.schemaType, stg, key)
+		if !ok {
+			return _errorAssembler{fmt.Errorf("bindnode TODO: invalid key: %q is not a field in type %s", key, w.schemaType.Name())}
+		}
 		w.curKey.val.SetString(revKey)
 
 		valAsm := (*_structAssembler)(w).AssembleValue()
